@@ -16,7 +16,8 @@ Exact-arithmetic harnesses (engine E1, symbolic ints/reals, path forking):
                      times vs states bookkeeping, symbolic num_steps <= 4, record_all both ways
   H2/Tempo.compute, H2/MeanFieldTempo.compute, H2/PtTebd.compute   loop + label bookkeeping with
                      a counting back-end stub
-  H3/Dynamics.add, H3/MeanFieldDynamics.add   <= 4 insertions at symbolic times stay sorted and aligned
+  H3/Dynamics.add, H3/MeanFieldDynamics.add   <= 4 insertions at symbolic times stay sorted and aligned; .../rejected_add:
+                     adds that raise (wrong state shape, caught by the caller) in between leave the object unchanged
 """
 import math
 import multiprocessing as mp
@@ -455,11 +456,25 @@ class _ApiLabels(Case):
     assumptions = ("dt > 0",)
     timeout_s = 60
 
-    def __init__(self, record_all, nmax=4):
+    PTS = "none"       # "none": no process tensor | "trivial": a TrivialProcessTensor alone, explicit num_steps |
+                       # "trivial+finite": a TrivialProcessTensor next to a finite one, num_steps=None (-> length of the finite one)
+
+    def _pts(self, inp, ns):
+        """-> (process tensor list or None, num_steps argument)"""
+        if self.PTS == "none":
+            return None, ns
+        triv = oqupy.process_tensor.TrivialProcessTensor(hilbert_space_dimension=2)
+        if self.PTS == "trivial":
+            return [triv], ns
+        return [_identity_pt(inp, ns), triv], None
+
+    def __init__(self, record_all, nmax=4, pts="none"):
         self.record_all = record_all
         self.NMAX = nmax
-        self.id = "H2/%s/record_all=%s" % (self.api, record_all)
-        self.bounds = {"num_steps": [0 if self.api != "compute_gradient_and_dynamics" else 1, self.NMAX], "d": 2, "record_all": record_all}
+        self.PTS = pts
+        self.id = "H2/%s/record_all=%s" % (self.api, record_all) + ("" if pts == "none" else "/pt=" + pts)
+        self.bounds = {"num_steps": [0 if self.api != "compute_gradient_and_dynamics" else 1, self.NMAX], "d": 2, "record_all": record_all,
+                       "process_tensors": pts}
 
     def _inputs(self, inp, lo=0):
         ns = inp.int("ns", lo, self.NMAX)
@@ -480,8 +495,9 @@ class LabelsComputeDynamics(_ApiLabels):
         ns, start, dt = self._inputs(inp)
         cs, P1, P2 = _scaled_props(inp, self.NMAX, 2)
         rho0 = inp.arr("r", (2, 2))
-        dyn = sd.compute_dynamics(lib.FakeSystem(2, P1, P2), initial_state=rho0, dt=dt, num_steps=ns, start_time=start,
-                                  record_all=self.record_all, progress_type="silent")
+        pts, ns_arg = self._pts(inp, ns)
+        dyn = sd.compute_dynamics(lib.FakeSystem(2, P1, P2), initial_state=rho0, dt=dt, num_steps=ns_arg, start_time=start,
+                                  process_tensor=pts, record_all=self.record_all, progress_type="silent")
         times, states = list(dyn._times), list(dyn._states)
         obs = _times_obs(times, start, dt, ns, self.record_all)
         obs.append(Ob.holds("len(times) == len(states)", len(times) == len(states), key="len"))
@@ -521,10 +537,13 @@ class LabelsGradient(_ApiLabels):
         cs, P1, P2 = _scaled_props(inp, self.NMAX, 2)
         rho0 = inp.arr("r", (2, 2))
         target = inp.arr("g", (2, 2))
-        pt = _identity_pt(inp, self.NMAX)
+        if self.PTS == "trivial+finite":
+            pts, ns_arg = self._pts(inp, ns)
+        else:
+            pts, ns_arg = [_identity_pt(inp, self.NMAX)], ns
         _, dyn = gradient_mod.compute_gradient_and_dynamics(
-            lib.FakeParamSystem(2, P1, P2), initial_state=rho0, target_derivative=target, process_tensors=[pt],
-            parameters=[(0.0,)] * (2 * self.NMAX), start_time=start, dt=dt, num_steps=ns, record_all=self.record_all,
+            lib.FakeParamSystem(2, P1, P2), initial_state=rho0, target_derivative=target, process_tensors=pts,
+            parameters=[(0.0,)] * (2 * self.NMAX), start_time=start, dt=dt, num_steps=ns_arg, record_all=self.record_all,
             progress_type="silent")
         times, states = list(dyn._times), list(dyn._states)
         obs = _times_obs(times, start, dt, ns, self.record_all)
@@ -607,8 +626,8 @@ class LabelsWithField(_ApiLabels):
     stubs = _ApiLabels.stubs + ("field equation of motion: da/dt = 0 (field bookkeeping is C09's subject)",)
     lo = 1
 
-    def __init__(self, record_all, nmax=4, zero_steps=False):
-        super().__init__(record_all, nmax)
+    def __init__(self, record_all, nmax=4, zero_steps=False, pts="none"):
+        super().__init__(record_all, nmax, pts)
         if zero_steps:       # dedicated case: a computation over zero steps returns the initial state at start_time
             self.lo = self.NMAX = 0
             self.id = "H2/compute_dynamics_with_field/num_steps=0"
@@ -623,7 +642,9 @@ class LabelsWithField(_ApiLabels):
         rho0 = inp.arr("r", (2, 2))
         mfs = oqupy.MeanFieldSystem([_FakeFieldSystem(2, P1, P2)], field_eom=lambda t, states, a: 0.0 * a)
         a0 = inp.one() * 1
-        dyn = sd.compute_dynamics_with_field(mfs, initial_field=a0, dt=dt, num_steps=ns, initial_state_list=[rho0],
+        pts, ns_arg = self._pts(inp, ns)
+        dyn = sd.compute_dynamics_with_field(mfs, initial_field=a0, dt=dt, num_steps=ns_arg, initial_state_list=[rho0],
+                                             process_tensor_list=None if pts is None else [pts],
                                              start_time=start, record_all=self.record_all, progress_type="silent")
         times = list(dyn._times)
         sub = dyn._system_dynamics[0]
@@ -818,10 +839,25 @@ class DynamicsAdd(Case):
     timeout_s = 60
     max_paths = 4000
 
-    def __init__(self, kind, n):
-        self.kind, self.n = kind, n
-        self.id = "H3/%s.add/n%d" % (kind, n)
-        self.bounds = {"insertions": n}
+    def __init__(self, kind, n, rejected=False):
+        self.kind, self.n, self.rejected = kind, n, rejected
+        self.id = "H3/%s.add/n%d" % (kind, n) + ("/rejected_add" if rejected else "")
+        self.bounds = {"insertions": n, "rejected adds (wrong state shape, caller catches the AssertionError)": 2 if rejected else 0}
+
+    def _bad_add(self, inp, dyn, k):
+        """an add with a state of the wrong shape after the k-th good add; the caller catches the error.
+        The history continues: an add that raises must leave times / states / fields unchanged"""
+        if not self.rejected or k not in (0, 1):
+            return
+        tb = inp.real("tb%d" % k)
+        bad = _scale(inp.const(np.identity(3)), inp.real("sb%d" % k))
+        try:
+            if self.kind == "Dynamics":
+                dyn.add(tb, bad)
+            else:
+                dyn.add(tb, [bad], inp.real("fb%d" % k))
+        except AssertionError:
+            pass
 
     @guard_library_exceptions
     def run(self, inp):
@@ -830,19 +866,25 @@ class DynamicsAdd(Case):
         tags = [inp.real("s%d" % i) for i in range(n)]
         if self.kind == "Dynamics":
             dyn = dynamics_mod.Dynamics()
-            for t, g in zip(ts, tags):
+            for k, (t, g) in enumerate(zip(ts, tags)):
                 dyn.add(t, _scale(inp.const(np.identity(2)), g))
+                self._bad_add(inp, dyn, k)
             times, states = list(dyn._times), [s[0, 0] for s in dyn._states]
             fields = None
         else:
             dyn = dynamics_mod.MeanFieldDynamics()
-            for t, g in zip(ts, tags):
+            for k, (t, g) in enumerate(zip(ts, tags)):
                 dyn.add(t, [_scale(inp.const(np.identity(2)), g)], g * 2)
+                self._bad_add(inp, dyn, k)
             times = list(dyn._times)
             states = [s[0, 0] for s in dyn._system_dynamics[0]._states]
             fields = list(dyn._fields)
             sub_times = list(dyn._system_dynamics[0]._times)
-        obs = [Ob.holds("all insertions kept", len(times) == n and len(states) == n, key="len")]
+        aligned = len(times) == n and len(states) == n and (fields is None or (len(fields) == n and len(sub_times) == n))
+        obs = [Ob.holds("exactly the accepted insertions are recorded (times, states%s)" % ("" if fields is None else ", fields"), aligned,
+                        key="len", info="len(times)=%d len(states)=%d accepted adds=%d" % (len(times), len(states), n))]
+        if not aligned:
+            return obs
         for i in range(len(times) - 1):
             obs.append(Ob.holds("times sorted at %d" % i, times[i] <= times[i + 1], key="sorted"))
         # every (time, state) pair is one of the inserted pairs and each inserted pair occurs once:
@@ -886,11 +928,20 @@ def e1_cases(tier):
     for ra in (True, False):
         cs += [LabelsComputeDynamics(ra, n), LabelsWithField(ra, n), LabelsGradient(ra, n)]
     cs += [LabelsWithField(True, zero_steps=True), LabelsStateGradient(n)]
+    # a TrivialProcessTensor (length 0, unlimited max_step) alone with explicit num_steps, and next to a finite one with num_steps=None
+    cs += [LabelsComputeDynamics(True, n, pts="trivial"), LabelsComputeDynamics(True, n, pts="trivial+finite"),
+           LabelsWithField(True, n, pts="trivial+finite")]
+    # (compute_gradient_and_dynamics does not support a TrivialProcessTensor at all -- its back-propagation indexes the
+    #  missing MPO tensor and raises IndexError -- so there is no gradient variant of these cases)
+    if tier == "thorough":
+        cs += [LabelsComputeDynamics(False, n, pts="trivial+finite"), LabelsWithField(True, n, pts="trivial"),
+               LabelsWithField(False, n, pts="trivial+finite")]
     cs += [StepsExact("Tempo"), StepsExact("MeanFieldTempo"), StepsExact("PtTempo")]
     if tier == "thorough":
         cs += [ComputeLoop("Tempo", 5, Fraction(1, 2)), ComputeLoop("MeanFieldTempo", 5, Fraction(1, 2))]
     cs += [ComputeLoop("Tempo", 4 if tier == "quick" else 6), ComputeLoop("MeanFieldTempo", 4 if tier == "quick" else 6), PtTebdLoop()]
     cs += [DynamicsAdd("Dynamics", 3), DynamicsAdd("MeanFieldDynamics", 3)]
+    cs += [DynamicsAdd("Dynamics", 3, rejected=True), DynamicsAdd("MeanFieldDynamics", 3, rejected=True)]
     if tier == "thorough":
         cs += [DynamicsAdd("Dynamics", 4), DynamicsAdd("MeanFieldDynamics", 4)]
     return cs
